@@ -269,7 +269,8 @@ class DelayedS3Writer(S3Limits):
         if client is None:
             # Assume running locally with everyone sharing same self.mpu
             with _mpu_local_lock():
-                if not final_write:
+                # re-check under the lock: another thread might have won the race
+                if not final_write and not mpu.started:
                     _ = mpu.initiate(**self.kw)
                 return mpu
 
